@@ -61,7 +61,7 @@ def run_interp_check(pid, gen, fields, counts, tier, seed, rule, design_ref, ext
         cases = [json.loads(l) for l in open(os.path.join(scratch, "cases.jsonl"))]
         results = common.run_driver(driver, os.path.join(scratch, "cases.sx"))
         known, _ = common.known_findings(pid)
-        dropped, compared, mism, panics = {}, 0, 0, 0
+        dropped, compared, mism, panics, impl_only = {}, 0, 0, 0, 0
         for c, line in zip(cases, results):
             impl = c["impl"]
             m = parse_model(line)
@@ -71,12 +71,26 @@ def run_interp_check(pid, gen, fields, counts, tier, seed, rule, design_ref, ext
                     res.violation({"property": pid, "kind": "the interpreter panicked (escaped into the host)",
                                    "source": c["src"], "panic": impl.get("msg"), "model": m})
                 continue
+            if impl["status"] == "crash" and str(impl.get("msg", "")).startswith("not run"):
+                dropped["not-run-after-crashes"] = dropped.get("not-run-after-crashes", 0) + 1
+                continue
+            if impl["status"] == "crash":
+                # the supervised harness child died (fatal Go error such as a stack overflow) or stopped advancing on this program
+                panics += 1
+                if len(res.violations) < 8:
+                    res.violation({"property": pid, "kind": "the implementation took the process down or never returned on this program (%s)" % impl.get("msg"),
+                                   "source": c["src"], "cancel_at": c["cancel_at"], "model": m,
+                                   "how_to_replay": "vm.RunContext with the counting context of harness/interp.go cancelled at poll number cancel_at"})
+                continue
             if impl_oracle:
                 for why in impl_oracle(c):
                     mism += 1
                     if len(res.violations) < 8:
                         res.violation({"property": pid, "kind": "law violated by the implementation alone: " + why,
                                        "source": c["src"], "impl": impl})
+            if "impl-only" in (c.get("tags") or []):
+                impl_only += 1      # values the model does not have: judged by the law on the implementation alone
+                continue
             if impl["status"] == "timeout":
                 dropped["impl-timeout"] = dropped.get("impl-timeout", 0) + 1
                 continue
@@ -130,7 +144,7 @@ def run_interp_check(pid, gen, fields, counts, tier, seed, rule, design_ref, ext
                                    "source": e["src"], "field": e["field"], "required": e["want"], "impl": rec["impl"]})
         extra_cov = extra(res, scratch, harness) if extra else {}
         ndropped = sum(dropped.values())
-        if cases and ndropped > max_dropped * len(cases):
+        if cases and ndropped > max_dropped * len(cases) and not res.violations:
             raise CheckError("%d of %d programs are outside the modelled fragment (%s): the check would pass thinly"
                              % (ndropped, len(cases), dropped))
         if bad:
@@ -150,7 +164,7 @@ def run_interp_check(pid, gen, fields, counts, tier, seed, rule, design_ref, ext
                 "host function pool (probe, probe2, hvar, hpair, hpanic, hnone, hfix3, hzero) defined twice: harness/interp.go and host_call in Model.v",
                 "Go runtime behaviour modelled not verified: reflect, append growth (formula validated against the toolchain), "
                 "strconv/fmt float routines (oracle tables filled from the real functions)"],
-            "evaluations": len(cases), "compared": compared, "distinct_nontrivial": meta["distinct_nontrivial"],
+            "evaluations": len(cases), "compared": compared, "judged_on_the_implementation_alone": impl_only, "distinct_nontrivial": meta["distinct_nontrivial"],
             "dropped_outside_fragment": dropped, "mismatches": mism, "implementation_panics": panics,
             "compared_fields": list(fields), "rule": rule, "directed_expectations_checked": exp_checked, "constructs": meta["constructs"],
             "samples": [{"src": c["src"][:600], "impl": c["impl"]} for c in cases[len(cases) // 2: len(cases) // 2 + 2]],
